@@ -115,5 +115,36 @@ theorem kernel_eq_biotSavart (r1 r2 : V3 ℝ) (h1 : V3.norm r1 ≠ 0) (h2 : V3.n
   rw [hnum, hfac]
   ext <;> simp only [V3.smul_x, V3.smul_y, V3.smul_z] <;> push_cast <;> field_simp
 
+/-- the Kutta–Joukowski force is perpendicular both to the local velocity (the panel does no work on the flow: all
+drag of the method is induced drag from the tilt of the local velocity) and to the bound vortex -/
+theorem c05_force_perpendicular (surfs : List (Surf ℝ)) (f : Flow ℝ) (gamma : ℕ → ℝ) (m : ℕ) (s : Surf ℝ) (i j : ℕ)
+    (hloc : locate surfs m = some (s, i, j)) :
+    V3.dot (panelForce surfs f gamma m) (forcePtVelocity surfs f gamma m) = 0 ∧
+    V3.dot (panelForce surfs f gamma m) (boundVec s i j) = 0 := by
+  simp only [panelForce, hloc]
+  constructor <;> simp only [V3.dot, V3.smul_x, V3.smul_y, V3.smul_z, V3.cross_x, V3.cross_y, V3.cross_z] <;> ring
+
+/-- **whole-system tangency**: if `Γ` solves the assembled system then at *every* collocation point of *every*
+surface the onset velocity plus the velocity induced by all rings of all surfaces is tangent to the panel -/
+theorem c05_tangency_everywhere (surfs : List (Surf ℝ)) (f : Flow ℝ) (gamma : ℕ → ℝ)
+    (hs : ∀ m, m < totalPanels surfs → ∑ n ∈ range (totalPanels surfs), aic surfs f m n * gamma n = rhs surfs f m)
+    (m : ℕ) (s : Surf ℝ) (i j : ℕ) (hloc : locate surfs m = some (s, i, j)) :
+    V3.dot (onset f (collPt s i j)
+      + V3.sumTo (totalPanels surfs) (fun n => V3.smul (gamma n) (influence surfs f (collPt s i j) n))) (normal s i j) = 0 := by
+  have hm : m < totalPanels surfs := by
+    by_contra hc
+    have : ∀ (l : List (Surf ℝ)) (k : ℕ), ¬ k < totalPanels l → locate l k = none := by
+      intro l
+      induction l with
+      | nil => intro k _; rfl
+      | cons t rest ih =>
+        intro k hk
+        simp only [totalPanels, List.map_cons, List.sum_cons] at hk
+        have h1 : ¬ k < t.npanels := by omega
+        simp only [locate, h1, if_false]
+        exact ih _ (by simp only [totalPanels]; omega)
+    rw [this surfs m hc] at hloc; simp at hloc
+  exact c05_tangency surfs f gamma m s i j hloc (hs m hm)
+
 end C05
 end OAS
